@@ -989,3 +989,29 @@ def rules_can_fire(qualname):
                             out.append(_ob(qualname, "statement-reachable@L%d" % nxt.lineno, False, nxt.lineno, "the statement at line %d follows an unconditional `%s` in the same block and can never run" % (nxt.lineno, type(st).__name__.lower())))
                         break
     return out
+
+
+def table_entries_have_same_keys(modname):
+    """entries stored into the same look-up table as literal dicts (`x.table[k] = {"label": ..., "type": ...}`) carry the same keys
+    wherever they are built in the module (readers of the table index the entries by those keys)"""
+    import collections
+
+    m = source.load(modname)
+    groups = collections.defaultdict(list)
+    for node in ast.walk(m.tree):
+        if isinstance(node, ast.Assign) and len(node.targets) == 1 and isinstance(node.targets[0], ast.Subscript) and isinstance(node.value, ast.Dict) and node.value.keys \
+                and all(isinstance(k, ast.Constant) for k in node.value.keys):
+            table = ast.unparse(node.targets[0].value).split(".")[-1]
+            groups[table].append((node.lineno, tuple(sorted(str(k.value) for k in node.value.keys))))
+    out = []
+    for table, items in sorted(groups.items()):
+        if len(items) < 2:
+            continue
+        keysets = sorted(set(k for _, k in items), key=lambda k: -sum(1 for _, kk in items if kk == k))
+        ok = len(keysets) == 1
+        odd = [(ln, k) for ln, k in items if k != keysets[0]]
+        out.append(dict(function="%s:module-level" % modname, name="entries-of-%s-have-the-same-keys:%d sites" % (table, len(items)), kind="structural", status="proved" if ok else "refuted", seconds=0.0, backend="ast-analysis",
+                        line=odd[0][0] if odd else None,
+                        note=("every literal entry stored in `%s` has the keys %r" % (table, list(keysets[0]))) if ok else
+                        ("entries stored in `%s` are built with different keys: %r at most sites, but %r at line %d" % (table, list(keysets[0]), list(odd[0][1]), odd[0][0]))))
+    return out
